@@ -45,6 +45,44 @@ theorem exportWith_is_model (E : Engine) (rn : Bool) (r : Reader) :
       simp [BaseReport_ExportWith, TemporalReport_ExportWith, EnvironmentalReport_ExportWith, getTempleteString_is_model,
         exportWith, templateOf, hs]
 
+/-- C19 restated about the translated source text: for every engine, receiver and reader, each of the three `ExportWith`
+    returns (no panic) either output and no error or no output and one of the two sentinels; a nil or failing reader gives
+    invalid-template whatever the report; a nil report gives null-pointer once the template text could be read; and a
+    reader is its content handed to the same type's `ExportWithString` -/
+theorem c19_about_source (E : Engine) (rn : Bool) (r : Reader) :
+    ∀ f ∈ [BaseReport_ExportWith, TemporalReport_ExportWith, EnvironmentalReport_ExportWith],
+      ∃ res, f E rn r = some res ∧ (res.1.isSome ↔ res.2 = none) ∧
+        (res.2 = none ∨ res.2 = some .invalidTemplate ∨ res.2 = some .nullPointer) ∧
+        ((r = .nil ∨ r = .fails) → res = (none, some .invalidTemplate)) ∧
+        (∀ t, r = .content t → rn = true → res = (none, some .nullPointer)) := by
+  intro f hf
+  have hm := exportWith_is_model E rn r
+  have hc := C19.clean_failure E.run rn r
+  have hb := C19.bad_reader E.run rn
+  refine ⟨exportWith E.run rn r, ?_, hc.1, hc.2, ?_, ?_⟩
+  · simp only [List.mem_cons, List.mem_nil_iff, or_false] at hf
+    rcases hf with rfl | rfl | rfl
+    · exact hm.1
+    · exact hm.2.1
+    · exact hm.2.2
+  · rintro (rfl | rfl)
+    · exact hb.1
+    · exact hb.2
+  · rintro t rfl rfl
+    rw [C19.reader_is_string]; exact C19.nil_report E.run t
+
+theorem reader_is_string_source (E : Engine) (rn : Bool) (t : Bytes) :
+    BaseReport_ExportWith E rn (.content t) = BaseReport_ExportWithString E rn t ∧
+    TemporalReport_ExportWith E rn (.content t) = TemporalReport_ExportWithString E rn t ∧
+    EnvironmentalReport_ExportWith E rn (.content t) = EnvironmentalReport_ExportWithString E rn t := by
+  have h1 := exportWith_is_model E rn (.content t)
+  have h2 := exportWithString_is_model E rn t
+  have h3 := C19.reader_is_string E.run rn t
+  refine ⟨?_, ?_, ?_⟩
+  · rw [h1.1, h2.1, h3]
+  · rw [h1.2.1, h2.2.1, h3]
+  · rw [h1.2.2, h2.2.2, h3]
+
 /-- the premises are not vacuous: an engine that upper-cases nothing and fails on the empty template -/
 example : (BaseReport_ExportWith ⟨Bytes, fun t => if t = [] then none else some t, some⟩ false (.content [65])) =
     some (some [65], none) := by decide
